@@ -7,7 +7,7 @@ suf = sys.argv[2] if len(sys.argv) > 2 else ''
 src = os.environ.get('SRC_ROOT', '/tmp/mut') + '/%s.out' % pid
 patch, demo, meta = [os.path.join(src, n % suf) for n in ('patch%s.diff', 'demo%s.rs', 'meta%s.json')]
 demosh = os.path.join(src, 'demo%s.sh' % suf)
-use_sh = os.path.exists(demosh) and (pid in ('C19', 'C20') or not os.path.exists(demo))
+use_sh = os.path.exists(demosh) and (pid in ('C19', 'C20') or not os.path.exists(demo) or bool(os.environ.get('USE_SH')))
 group = None
 if not pid.startswith('C'):
     # cross-cutting round: the agent names the property in its meta file
